@@ -187,7 +187,25 @@ func runMirror(events []string, props []string, seed int, args map[string]string
 		if crashedHere && args != nil && args["expect_after"] != "" && posBehind(posKey(after), args["expect_after"]) {
 			// C10, last sentence: with the interrupted message delivered again the node is (at least) where the
 			// uninterrupted run is after that message; votes persisted before the stop may let it be ahead for a while.
-			o.violate("C10", "position-after-redelivery-behind-crash-free-run", fmt.Sprintf("after the stop inside %s, the restart and the redelivery the node is at [%s]; without the stop it is at [%s] after that message", ev, posKey(after), args["expect_after"]))
+			kind := "message"
+			switch {
+			case strings.HasPrefix(ev, "V:"):
+				kind = "vote"
+			case strings.HasPrefix(ev, "PH"):
+				kind = "proposal"
+			case strings.HasPrefix(ev, "RP"):
+				kind = "replay"
+			case strings.HasPrefix(ev, "SMA"):
+				kind = "own-vote"
+			}
+			decided := ""
+			tot := w.total(after.voting.Height)
+			for target, pow := range after.voting.VoteSummary.PrecommitBlockPower {
+				if target != "" && pow >= majority(tot) {
+					decided = ":voting-round-holds-a-precommit-majority"
+				}
+			}
+			o.violate("C10", "position-after-redelivery-behind-crash-free-run:redelivered-"+kind+decided, fmt.Sprintf("after the stop inside %s, the restart and the redelivery the node is at [%s]; without the stop it is at [%s] after that message", ev, posKey(after), args["expect_after"]))
 		}
 		before = after
 		if i+1 == seed {
